@@ -40,7 +40,7 @@ class StopAt(EngineSignal):
 
 class Frame:
     __slots__ = ("locals", "ctypes", "module", "func", "self_obj", "cls", "globals_declared", "parent",
-                 "comp_stack", "exc_stack", "local_names")
+                 "comp_stack", "exc_stack", "local_names", "nonlocals")
 
     def __init__(self, module, func=None, self_obj=None, cls=None, parent=None):
         self.locals = {}
@@ -54,6 +54,17 @@ class Frame:
         self.comp_stack = []
         self.exc_stack = []
         self.local_names = None
+        self.nonlocals = None
+
+
+def _has_directive(path, text):
+    """a `# cython: <directive>` comment in the header of a source file"""
+    try:
+        with open(path, encoding="utf-8") as f:
+            head = [next(f, "") for _ in range(15)]
+    except OSError:
+        return False
+    return any(l.lstrip().startswith("#") and "cython:" in l and text in l.replace(" ", "") for l in head)
 
 
 def _walk(node):
@@ -104,7 +115,19 @@ class Interp(ExprMixin):
         if pxd is not None and os.path.exists(os.path.join(self.repo, pxd)):
             mod.pxd_tree = self._parse(os.path.join(self.repo, pxd), name + "_pxd", name)
             self.exec_module_body(mod, mod.pxd_tree, is_pxd=True)
+        mod.cdivision = _has_directive(path, "cdivision=True")
         mod.tree = self._parse(path, name.replace(".", "_"), name)
+        self.exec_module_body(mod, mod.tree, is_pxd=False)
+        mod.executed = True
+        return mod
+
+    def load_source(self, name, src):
+        """interpret ad-hoc source text as a module (engine self-test)"""
+        from Cython.Compiler.TreeFragment import parse_from_strings
+        mod = ModuleInfo(name, "<%s>" % name)
+        mod.cdivision = "cdivision=True" in src[:400]
+        self.modules[name] = mod
+        mod.tree = parse_from_strings(name.replace(".", "_"), src)
         self.exec_module_body(mod, mod.tree, is_pxd=False)
         mod.executed = True
         return mod
@@ -282,14 +305,14 @@ class Interp(ExprMixin):
             seq = list(seq)
             if any(is_sym(e) for e in seq) and not k:
                 return s_max(*seq)
-            return max(*a, **k)
+            return max(seq, **k) if len(a) == 1 else max(*a, **k)      # the iterable was consumed into seq
 
         def b_min(*a, **k):
             seq = a[0] if len(a) == 1 else a
             seq = list(seq)
             if any(is_sym(e) for e in seq) and not k:
                 return s_min(*seq)
-            return min(*a, **k)
+            return min(seq, **k) if len(a) == 1 else min(*a, **k)
 
         def b_isinstance(o, t):
             if isinstance(t, tuple):
@@ -508,6 +531,10 @@ class Interp(ExprMixin):
                 fi = c.methods[name]
                 if fi.is_static:
                     return Function(self, fi)
+                if getattr(fi, "is_classmethod", False):
+                    return BoundMethod(self, ci, fi)
+                if getattr(fi, "is_property", False):
+                    return self.call_funcinfo(fi, obj, (), {})
                 return BoundMethod(self, obj, fi)
             if name in c.class_vars:
                 return c.class_vars[name]
@@ -665,7 +692,9 @@ class Interp(ExprMixin):
         fr.globals_declared.update(n.names)
 
     def x_NonlocalNode(self, n, fr):
-        raise Unsupported("nonlocal")
+        if not hasattr(fr, "nonlocals") or fr.nonlocals is None:
+            fr.nonlocals = set()
+        fr.nonlocals |= set(n.names)
 
     def x_CVarDefNode(self, n, fr):
         for d in n.declarators:
@@ -685,6 +714,13 @@ class Interp(ExprMixin):
                 v = self.coerce(t, v)
             fr.module.ns[nm] = v
             return
+        if fr.nonlocals and nm in fr.nonlocals:
+            p_ = fr.parent
+            while p_ is not None:
+                if nm in p_.locals:
+                    p_.locals[nm] = v
+                    return
+                p_ = p_.parent
         t = fr.ctypes.get(nm)
         if t is not None:
             v = self.coerce(t, v)
@@ -705,6 +741,18 @@ class Interp(ExprMixin):
             self.setitem(base, idx, v, self._elem_type(target.base, fr))
         elif isinstance(target, (E.TupleNode, E.ListNode)):
             vals = list(v)
+            stars = [i for i, t in enumerate(target.args) if isinstance(t, E.StarredUnpackingNode)]
+            if len(stars) == 1:
+                i = stars[0]
+                after = len(target.args) - i - 1
+                if len(vals) < len(target.args) - 1:
+                    raise ValueError("not enough values to unpack (expected at least %d, got %d)" % (len(target.args) - 1, len(vals)))
+                for t, x in zip(target.args[:i], vals[:i]):
+                    self.assign(t, x, fr)
+                self.assign(target.args[i].target, vals[i:len(vals) - after], fr)
+                for t, x in zip(target.args[i + 1:], vals[len(vals) - after:] if after else []):
+                    self.assign(t, x, fr)
+                return
             if len(vals) != len(target.args):
                 raise ValueError("not enough/too many values to unpack (expected %d, got %d)" %
                                  (len(target.args), len(vals)))
@@ -945,7 +993,34 @@ class Interp(ExprMixin):
             self.exec(n.else_clause, fr)
 
     def x_ForFromStatNode(self, n, fr):
-        raise Unsupported("for-from loop")
+        """for i from a <= i < b [by s]: a C loop; the bounds are evaluated once"""
+        lo = self.eval(n.bound1, fr)
+        hi = self.eval(n.bound2, fr)
+        step = self.eval(n.step, fr) if getattr(n, "step", None) is not None else 1
+        r1, r2 = n.relation1, n.relation2
+        down = r1 in (">", ">=")
+        i = lo + (0 if r1 in ("<=", ">=") else (-1 if down else 1))
+        ops = {"<": lambda a, b: a < b, "<=": lambda a, b: a <= b, ">": lambda a, b: a > b, ">=": lambda a, b: a >= b}
+        count = 0
+        broke = False
+        while self.truth(ops[r2](i, hi)):
+            count += 1
+            if count > ctx().unwind * 64:
+                raise UnwindExceeded("for-from loop beyond %d iterations" % (ctx().unwind * 64))
+            self.assign(n.target, i, fr)
+            try:
+                self.exec(n.body, fr)
+            except _Break:
+                broke = True
+                break
+            except _Continue:
+                pass
+            i = i - step if down else i + step
+        if not broke and getattr(n, "else_clause", None) is not None:
+            self.exec(n.else_clause, fr)
+
+    def x_GILStatNode(self, n, fr):
+        self.exec(n.body, fr)          # with nogil / with gil: no effect on sequential semantics
 
     def x_ReturnStatNode(self, n, fr):
         raise _Return(self.eval(n.value, fr) if n.value is not None else None)
